@@ -248,8 +248,9 @@ class PushSelection(Unit):
                 parts.append(k == 0)
             else:
                 parts.append(g.length() == k)
-                parts.append(z3.ForAll([j], z3.Implies(z3.And(0 <= j, j < k), z3.And(
-                    g.leaf((0,), j) == M((0, "seq_out"), j), g.leaf((1,), j) == M((0, "ts_sent"), j), g.leaf((2,), j) == M((0, "ts_recv"), j), g.leaf((3,), j) == M((1,), j)))))
+                parts.append(z3.ForAll([j], z3.Implies(z3.And(g.lo <= j, j < g.hi), z3.And(
+                    z3.Select(g.arrs[(0,)], j) == M((0, "seq_out"), j - g.lo), z3.Select(g.arrs[(1,)], j) == M((0, "ts_sent"), j - g.lo),
+                    z3.Select(g.arrs[(2,)], j) == M((0, "ts_recv"), j - g.lo), z3.Select(g.arrs[(3,)], j) == M((1,), j - g.lo)))))
             return z3.And([toz(p) for p in parts])
 
         ex.loops[("push_selection", 1)] = LoopSpec(inv, modifies=["self.q_msgs", "self._record_messages", "grouped"], schemas={"grouped": aw.GROUPED_ELEM})
@@ -282,11 +283,13 @@ class PushSelection(Unit):
         g = qg1.at(qg0.length())
         win = c.f["connection"].f["window"]
         glen = z3.If(num < win, num, win)
+        GA = lambda p, i: z3.Select(g.arrs[p], i)      # absolute index into the group's storage, so the trigger matches every read of it
+        off = lambda i: num - glen + (i - g.lo)
         ctx.ensure("C03/C01 the group handed to the step = the last `window` of the consumed messages, oldest first",
                    z3.And(qg1.lo == qg0.lo, qg1.hi == qg0.hi + 1, g.length() == glen,
-                          z3.ForAll([j], z3.Implies(z3.And(0 <= j, j < glen), z3.And(
-                              g.leaf((0,), j) == M((0, "seq_out"), num - glen + j), g.leaf((1,), j) == M((0, "ts_sent"), num - glen + j),
-                              g.leaf((2,), j) == M((0, "ts_recv"), num - glen + j), g.leaf((3,), j) == M((1,), num - glen + j))))), props=("C01", "C03"))
+                          z3.ForAll([j], z3.Implies(z3.And(g.lo <= j, j < g.hi), z3.And(
+                              GA((0,), j) == M((0, "seq_out"), off(j)), GA((1,), j) == M((0, "ts_sent"), off(j)),
+                              GA((2,), j) == M((0, "ts_recv"), off(j)), GA((3,), j) == M((1,), off(j)))))), props=("C01", "C03"))
 
 
 # =========================================================================================== push_ts_max
